@@ -249,12 +249,10 @@ class SimulationAlgorithm(BaseSimulationAlgorithm):
                 raise LeaspyAlgoInputError("Dataframe has null value in column TIME")
 
         if self.visit_type == VisitType.RANDOM:
-            if (
-                self.param_study["distance_visit_mean"] <= 0
-                and self.param_study["distance_visit_std"] <= 0
-            ):
+            if self.param_study["distance_visit_mean"] <= 0:
+                # with a non-positive mean interval the visit ages never reach the end of the follow-up
                 raise LeaspyAlgoInputError(
-                    "Distance visit mean (distance_visit_mean) and distance visit std need to be positive"
+                    "Distance visit mean (distance_visit_mean) needs to be positive"
                 )
 
     ## --- SET PARAMETERS ---
